@@ -7,7 +7,7 @@ import (
 	eventbus "github.com/jilio/ebu"
 )
 
-//verif:entry property=C13 tier=both bounds="bus on the durable-streams store (real client library over the model server): K publishes (optionally each under its own context, cancelled after the publish returned), the server answers one chosen append request with 503 (or none); delivery unaffected, that failure reported exactly once, the rejected event not in the log, the others in order" cover="rejected,all-ok" K_quick=3 K_thorough=4
+//verif:entry property=C13 tier=both bounds="bus on the durable-streams store (real client library over the model server): K publishes (optionally each under its own context, cancelled after the publish returned), the server answers one chosen append request with 503 (or none), optionally after another writer's message has landed on the stream; delivery unaffected, that failure reported exactly once, the rejected event not in the log, the others in order" cover="rejected,all-ok" K_quick=3 K_thorough=4
 func harnessC13DurableRejectedAppend() {
 	K := vParam("K", 3)
 	st, err := New(vdsServer("c13"), "s", dsOpts()...)
@@ -23,6 +23,7 @@ func harnessC13DurableRejectedAppend() {
 	failAt := vInt(-1, K-1)
 	vmDSAppends = 0
 	vmDSFailAppend = failAt
+	vmDSForeign = vBool() // the stream has a second writer, whose message lands right before the rejected append
 	perRequest := vBool() // every publish under its own context, cancelled once the publish has returned
 	for i := 0; i < K; i++ {
 		if perRequest {
@@ -34,9 +35,25 @@ func harnessC13DurableRejectedAppend() {
 		}
 	}
 	vmDSFailAppend = -1
+	foreign := vmDSForeign
+	vmDSForeign = false
 	vAssert(delivered == K, "all-handlers-still-run")
-	evs, _, rerr := st.Read(bg, eventbus.OffsetOldest, 0)
+	all, _, rerr := st.Read(bg, eventbus.OffsetOldest, 0)
 	vAssert(rerr == nil, "log-readable")
+	var evs []*eventbus.StoredEvent
+	nForeign := 0
+	for _, e := range all {
+		if e.Type == "foreign" {
+			nForeign++
+		} else {
+			evs = append(evs, e)
+		}
+	}
+	if foreign && failAt >= 0 {
+		vAssert(nForeign == 1, "other-writers-message-kept")
+	} else {
+		vAssert(nForeign == 0, "other-writers-message-kept")
+	}
 	var want []int
 	for i := 0; i < K; i++ {
 		if i != failAt {
